@@ -37,7 +37,7 @@ theorem C02_alloc_success (ty : Ty) (bs : Bytes) (v : Val) (rest : Bytes) (hb : 
   rw [a1, Nat.mul_add]; omega
 
 /-- The transaction reader (`GetTransactionByBytes` + `Deserialize`), for every covered type,
-    transaction version and payload version: at most `530·|input| + 20 MiB` on every input. -/
+    transaction version and payload version: at most `548·|input| + 40 MiB` on every input. -/
 theorem C02_tx_alloc_bound (bs : Bytes) :
     (decodeTxA bs).alloc ≤ txDens * bs.length + txSlack := by
   have h := decodeTxA_good txDens txSlack
@@ -51,7 +51,7 @@ theorem C02_tx_alloc_bound (bs : Bytes) :
     have : txDens * c ≤ txDens * bs.length := Nat.mul_le_mul_left _ (by omega)
     omega
 
-/-- The block reader: at most `(512 + 530)·|input| + 20 MiB` on every input. -/
+/-- The block reader: at most `(512 + 548)·|input| + 40 MiB` on every input. -/
 theorem C02_block_alloc_bound (bs : Bytes) :
     (decodeBlockA bs).alloc ≤ (512 + txDens) * bs.length + txSlack := by
   have h := decodeBlockA_good txDens txSlack
@@ -75,8 +75,8 @@ theorem C02_bounded_schemas :
 
 /-- `K` and `C` of the stand-alone schemas -/
 theorem C02_constants :
-    dens header ≤ 530 ∧ slack header ≤ 20971536 ∧
-    dens confirm ≤ 530 ∧ slack confirm ≤ 20971536 ∧
+    dens header ≤ 548 ∧ slack header ≤ 41943072 ∧
+    dens confirm ≤ 548 ∧ slack confirm ≤ 41943072 ∧
     dens invMsg = 96 ∧ slack invMsg = 48 * 50000 ∧
     dens getBlocksMsg = 48 ∧ slack getBlocksMsg = 48 * 500 ∧
     dens addrMsg = 176 ∧ slack addrMsg = 80 * 1000 := by decide
